@@ -294,7 +294,7 @@ func cmdCheck(repo, verif, prop, tier string, timeoutMs int, verbose bool) int {
 	}
 	if cr.loadErr != "" {
 		emitViolation("engine/load", "the repository could not be loaded for verification:\n"+cr.loadErr+"\n", true)
-		writeEvidence(verif, prop, tier, seed, cr, nil, violations, nil)
+		writeEvidence(verif, prop, tier, seed, cr, nil, violations, nil, nil)
 		return 1
 	}
 	for _, e := range cr.specErrs {
@@ -311,7 +311,8 @@ func cmdCheck(repo, verif, prop, tier string, timeoutMs int, verbose bool) int {
 	seen := map[string]bool{}
 	replays := map[string]int{}
 	var knownHit []string
-	nObl, nDis, nAssumed := 0, 0, 0
+	nObl, nDis := 0, 0
+	var assumedObls []string
 	for _, fr := range cr.results {
 		if fr.Err != "" {
 			emitViolation(fr.Fn+"/engine", fmt.Sprintf("function %s could not be brought under the verifier:\n%s\nEvery obligation of this function is undecided (contract stale or construct outside the supported subset).\n", fr.Fn, fr.Err), true)
@@ -330,11 +331,13 @@ func cmdCheck(repo, verif, prop, tier string, timeoutMs int, verbose bool) int {
 				continue
 			}
 			seen[o.Name] = true
-			nObl++
 			if o.Assumed {
-				nAssumed++ // named by an 'undecided' clause: counted, not discharged
+				// named by an 'undecided' clause: never sent to a back end, so neither an obligation of this run nor a
+				// discharged one; it is an assumption, listed by name in the evidence and in the summary line
+				assumedObls = append(assumedObls, o.Name)
 				continue
 			}
+			nObl++
 			if o.ok() {
 				nDis++
 				continue
@@ -403,15 +406,15 @@ func cmdCheck(repo, verif, prop, tier string, timeoutMs int, verbose bool) int {
 			emitViolation("engine/stale:"+s, "contract refers to a function that no longer exists: "+s+"\n", true)
 		}
 	}
-	writeEvidence(verif, prop, tier, seed, cr, knownHit, violations, map[string]int{"obligations": nObl, "discharged": nDis, "assumed": nAssumed})
+	writeEvidence(verif, prop, tier, seed, cr, knownHit, violations, map[string]int{"obligations": nObl, "discharged": nDis}, assumedObls)
 	if verbose {
 		for _, fr := range cr.results {
 			fmt.Printf("  %-50s gen %.2fs solve %.2fs err=%s\n", fr.Fn, fr.GenTime, fr.SolveTime, fr.Err)
 		}
 	}
 	assumedTxt := ""
-	if nAssumed > 0 {
-		assumedTxt = fmt.Sprintf(" %d assumed (undecided clauses),", nAssumed)
+	if len(assumedObls) > 0 {
+		assumedTxt = fmt.Sprintf(" %d more assumed instead of checked (undecided clauses; listed in the evidence),", len(assumedObls))
 	}
 	fmt.Printf("property %s: %d obligations, %d discharged,%s %d violations, %.1fs\n", prop, nObl, nDis, assumedTxt, violations, cr.wall)
 	if violations > 0 {
@@ -438,7 +441,7 @@ type replayResult struct {
 	text       string
 }
 
-func writeEvidence(verif, prop, tier string, seed int, cr *checkRun, knownHit []string, violations int, counts map[string]int) {
+func writeEvidence(verif, prop, tier string, seed int, cr *checkRun, knownHit []string, violations int, counts map[string]int, assumedObls []string) {
 	type fnEv struct {
 		Name    string  `json:"name"`
 		File    string  `json:"file"`
@@ -455,6 +458,10 @@ func writeEvidence(verif, prop, tier string, seed int, cr *checkRun, knownHit []
 	var samples []map[string]interface{}
 	sumSolve, maxSolve := 0.0, 0.0
 	covers, coversOK := 0, 0
+	isKnown := map[string]bool{}
+	for _, k := range knownHit {
+		isKnown[k] = true
+	}
 	for _, fr := range cr.results {
 		n := 0
 		for _, o := range fr.Obls {
@@ -467,6 +474,9 @@ func writeEvidence(verif, prop, tier string, seed int, cr *checkRun, knownHit []
 			}
 			if !hasProp(o.Props, prop) && (o.PropsOnly || !hasProp(fr.Props, prop)) {
 				continue
+			}
+			if o.Assumed || isKnown[o.Name] {
+				continue // an assumption (listed under assumed_obligations) or an open known finding (known_findings): not counted
 			}
 			n++
 			byKind[o.Kind]++
@@ -502,6 +512,10 @@ func writeEvidence(verif, prop, tier string, seed int, cr *checkRun, knownHit []
 	if counts == nil {
 		counts = map[string]int{"obligations": 0, "discharged": 0}
 	}
+	if assumedObls == nil {
+		assumedObls = []string{}
+	}
+	sort.Strings(assumedObls)
 	meta := loadPropMeta(verif)[prop]
 	assumptions := append([]string{
 		"the VC generator gvc itself (unverified; guarded by the must-fail corpus, solver agreement and vacuity covers)",
@@ -528,7 +542,9 @@ func writeEvidence(verif, prop, tier string, seed int, cr *checkRun, knownHit []
 		"coverage": map[string]interface{}{
 			"obligations":              counts["obligations"],
 			"discharged":               counts["discharged"],
-			"assumed_not_discharged":   counts["assumed"],
+			"assumed_not_discharged":   len(assumedObls),
+			"assumed_obligations":      assumedObls,
+			"counting_rule":            "obligations = verification conditions generated from /repo's current source for this property and sent to a back end on this run; discharged = those answered unsat. Conditions named by an `undecided` clause of a contract are not sent to a back end: they are assumptions, counted in assumed_not_discharged, named in assumed_obligations, trusted_base and assumptions, and never part of obligations or discharged. Obligations of an open known finding are reported by their KNOWN-FINDING line and are not counted either.",
 			"checker_cmd":              fmt.Sprintf("/verif/bin/gvc check --property %s --tier %s", prop, tier),
 			"trusted_base":             trusted,
 			"functions_under_contract": fns,
